@@ -135,6 +135,10 @@ type (
 		updatedStreamsDuringTaggingJob bitmask.LongBitmask
 		resetStreamsDuringTaggingJob   bitmask.LongBitmask
 		addedStreamsDuringTaggingJob   bitmask.LongBitmask
+		// the tag the running tagging job evaluates and the uncertainty it
+		// inherited from referenced tags since the job was started
+		taggingJobTag                    string
+		inheritedStreamsDuringTaggingJob bitmask.LongBitmask
 
 		streamsToConvert         map[string]*bitmask.LongBitmask
 		pcapProcessorWebhookUrls []string
@@ -579,12 +583,16 @@ func (mgr *Manager) inheritTagUncertainty() {
 			if len(ti.features.MainTags) == 0 && len(ti.features.SubQueryTags) == 0 {
 				continue
 			}
+			duringTaggingJob := mgr.taggingJobRunning && mgr.taggingJobTag == tn
 			fullyInvalidated := false
 			for _, rtn := range ti.features.SubQueryTags {
 				if !mgr.tags[rtn].Uncertain.IsZero() {
 					//TODO: is a matching stream really uncertain?
 					ti.Uncertain = mgr.allStreams
 					fullyInvalidated = true
+					if duringTaggingJob {
+						mgr.inheritedStreamsDuringTaggingJob.Or(mgr.allStreams)
+					}
 					break
 				}
 			}
@@ -592,6 +600,9 @@ func (mgr *Manager) inheritTagUncertainty() {
 				ti.Uncertain = ti.Uncertain.Copy()
 				for _, rtn := range ti.features.MainTags {
 					ti.Uncertain.Or(mgr.tags[rtn].Uncertain)
+					if duringTaggingJob {
+						mgr.inheritedStreamsDuringTaggingJob.Or(mgr.tags[rtn].Uncertain)
+					}
 				}
 			}
 			mgr.tags[tn] = ti
@@ -738,6 +749,8 @@ outer:
 		mgr.updatedStreamsDuringTaggingJob = bitmask.LongBitmask{}
 		mgr.resetStreamsDuringTaggingJob = bitmask.LongBitmask{}
 		mgr.addedStreamsDuringTaggingJob = bitmask.LongBitmask{}
+		mgr.inheritedStreamsDuringTaggingJob = bitmask.LongBitmask{}
+		mgr.taggingJobTag = n
 		mgr.taggingJobRunning = true
 		indexes, releaser := mgr.getIndexesCopy(0)
 		converters := make(map[string]index.ConverterAccess)
@@ -835,6 +848,8 @@ func (mgr *Manager) updateTagJob(name string, t tag, tagDetails map[string]query
 			for _, converter := range t.converters {
 				mgr.streamsToConvert[converter.Name()].Or(t.Matches)
 			}
+			// the referenced tags changed while the job was running, the result is outdated for those streams
+			t.Uncertain.Or(mgr.inheritedStreamsDuringTaggingJob)
 			mgr.tags[name] = &t
 			if !(mgr.updatedStreamsDuringTaggingJob.IsZero() && mgr.resetStreamsDuringTaggingJob.IsZero() && mgr.addedStreamsDuringTaggingJob.IsZero()) {
 				mgr.invalidateTags(mgr.updatedStreamsDuringTaggingJob, mgr.resetStreamsDuringTaggingJob, mgr.addedStreamsDuringTaggingJob)
